@@ -182,7 +182,7 @@ func lexDatadogSpecial(l *Lexer) stateFn {
 }
 
 func lexEventBody(l *Lexer) stateFn {
-	if l.len-l.pos < l.eventTitleLen+1+l.eventTextLen {
+	if uint64(l.len-l.pos) < uint64(l.eventTitleLen)+1+uint64(l.eventTextLen) {
 		l.err = errNotEnoughData
 		return nil
 	}
